@@ -2,13 +2,16 @@ module kvharness
 
 go 1.23.0
 
-require github.com/segmentio/kafka-go v0.0.0
-
-replace github.com/segmentio/kafka-go => /repo
-
 require (
 	github.com/eapache/go-xerial-snappy v0.0.0-20180814174437-776d5712da21
 	github.com/golang/snappy v0.0.1
 	github.com/klauspost/compress v1.15.9
 	github.com/pierrec/lz4/v4 v4.1.15
+	github.com/segmentio/kafka-go v0.0.0
+	github.com/xdg-go/pbkdf2 v1.0.0
+	github.com/xdg-go/scram v1.1.2
+	github.com/xdg-go/stringprep v1.0.4
+	golang.org/x/text v0.23.0
 )
+
+replace github.com/segmentio/kafka-go => /repo
